@@ -25,7 +25,7 @@ theorem gen_pos (w : Width) (s : Stream) (p : Nat) : p < (gen w s p).2 := by
   cases w <;> simp [gen, nextU64, nextU128]
 
 /-- every value accepted by the rejection loop is below `range` (whatever the zone). -/
-theorem sampleLoop_lt (w : Width) (s : Stream) (range zn : Nat) :
+theorem sampleLoop_lt (w : Width) (s : Stream) (range zn : Nat) (hr : 0 < range) :
     ∀ (fuel p : Nat) (r : Nat × Nat), sampleLoop w s range zn fuel p = some r → r.1 < range ∧ p < r.2 := by
   intro fuel
   induction fuel with
@@ -39,10 +39,7 @@ theorem sampleLoop_lt (w : Width) (s : Stream) (range zn : Nat) :
       have hv := gen_lt w s p
       apply Nat.div_lt_of_lt_mul
       rw [Nat.mul_comm]
-      exact Nat.mul_lt_mul_of_pos_right hv (by
-        rcases Nat.eq_zero_or_pos range with h0 | h0
-        · subst h0; exact absurd hv (by simp at *; omega)
-        · exact h0)
+      exact Nat.mul_lt_mul_of_pos_right hv hr
     · have := ih _ r h
       exact ⟨this.1, Nat.lt_trans (gen_pos w s p) this.2⟩
 
